@@ -21,7 +21,8 @@ VERSIONISH = ["3.8", "3.10", "3.10.1", "2.7", "1.0a1", "1.0", "1", "3", "3.*", "
 NAMEISH = ["linux", "win32", "posix", "Foo_Bar", "foo-bar", "foo.bar", "FOO--BAR", "foo", "bar", "x86_64", "CPython", "cpython",
            "a", "b", "ab", "abc", "bc", "", "foo_bar", "Foo", "foo-", "-foo", "f.o_o-"]
 ODD = ["a b", "5.15.0-generic", "#1 SMP", "a'b", 'a"b', "(a)", "and", "or in", "a;b", "x)", "=", ">=1", "1.0 ;", "==1.0",
-       "not", "os_name", "'", '"', " ", "1.0)", "é", "A", "B", "Z", "~", "1.0,2.0", "*", "[x]", "\t", "a\tb"]
+       "not", "os_name", "'", '"', " ", "1.0)", "é", "A", "B", "Z", "~", "1.0,2.0", "*", "[x]", "\t", "a\tb",
+       "\xa03.8", "3.8\u2003", "\x0b1.0", "1.0\x1f"]      # Unicode / control whitespace around a version: Specifier strips it, Version accepts it
 P508 = ("abcxyzABZ019 \t().{}-_*#:;,/?[]!~`@$%^&=+|<>" + "'" + '"')
 
 
